@@ -367,6 +367,10 @@ def load_corpus():
     return out
 
 
+def translate(ctx):
+    return ctx.translate("opt_fields.py")
+
+
 def build(ctx):
     return ctx.harness("c10", ["c10.cpp"], repo_sources=REPO_SOURCES)
 
@@ -405,7 +409,10 @@ def run(ctx):
     ctx.trusted += ["correspondence harness harness/c10.cpp + generator checks/c10.py",
                     "hand-written model Model/GradOpt.lean, Model/Objectives.lean",
                     "ASan/UBSan runtime for the real code's memory safety (not a theorem)"]
+    translate(ctx)
     ctx.prove(["SharkVerif.Props.C10"])
+    if not ctx.quick:
+        ctx.leanchecker(["SharkVerif.Props.C10"])
     exe = build(ctx)
     drv = ctx.driver("drv_c10")
     if not exe or not drv:
